@@ -16,6 +16,7 @@ func init() {
 var c14Kinds = []lKind{lkConnDial, lkConnAcc, lkFifoR, lkFifoW, lkRegular, lkListener, lkPacket, lkPeer}
 
 var (
+	c14pStarved  = sim.RegStat("probe:c14-chain-runs-dry-and-resumes-from-the-poller")
 	c14pDeferred = sim.RegStat("probe:c14-op-deferred-at-the-bound")
 	c14pDepthMax = sim.RegStat("probe:c14-depth-reached-limit+1")
 	c14pCross    = sim.RegStat("probe:c14-chain-hopped-between-objects")
@@ -132,6 +133,7 @@ func runC14(c *Ctx, variant int) {
 	d.behaviours = d.behave
 	defer d.closeAll()
 	limit := sonic.MaxCallbackDispatch
+	starved := false
 	if variant >= 0 {
 		k := c14Kinds[variant%len(c14Kinds)]
 		if k == lkRegular {
@@ -152,7 +154,21 @@ func runC14(c *Ctx, variant int) {
 		for i := 0; i < n; i++ {
 			d.addObj(c14Kinds[w.Choose(len(c14Kinds))])
 		}
+		starved = w.Chance(1, 3)
 		for _, x := range d.objs {
+			if starved {
+				// little at a time: see below
+				switch x.kind {
+				case lkConnDial, lkConnAcc, lkFifoR:
+					d.peerSend(x, w.Pick(16, 1, 48))
+				case lkListener:
+					d.peerConnect(x)
+				case lkPacket, lkPeer:
+					d.peerDatagram(x, 12)
+				}
+				w.Drain(5_000_000_000)
+				continue
+			}
 			d.keepCompletable(x)
 		}
 		d.chain = w.Pick(10*limit, limit, limit+1, 2*limit+3, 5*limit)
@@ -161,10 +177,34 @@ func runC14(c *Ctx, variant int) {
 	if d.ioc.Dispatched != 0 {
 		c.Failf("dispatched-not-zero", "IO.Dispatched=%d with the stack unwound", d.ioc.Dispatched)
 	}
-	for round := 0; round < 200 && (d.chain > 0 || len(d.inFlight()) > 0); round++ {
+	// starved: the peers deliver little at a time, so a chain runs dry in the middle - the operation re-issued
+	// from inside a completion is deferred (would-block) and completes later from the poller, at depth one
+	if starved {
+		w.Stat(c14pStarved)
+	}
+	rounds := 200
+	if starved {
+		rounds = 600
+	}
+	for round := 0; round < rounds && (d.chain > 0 || len(d.inFlight()) > 0); round++ {
 		for _, o := range d.objs {
 			if o.kind == lkFifoW || o.kind.stream() {
 				d.peerDrain(o, 1<<20)
+			}
+			if starved {
+				switch {
+				case (o.kind == lkFifoR || o.kind.stream()) && o.peerSent-o.inOff == 0:
+					d.peerSend(o, w.Pick(1, 7, 40))
+				case o.kind == lkListener && w.K.ListenQueueLen(o.rawFd) == 0:
+					for i, n := 0, w.Pick(1, 2, 3); i < n; i++ {
+						d.peerConnect(o)
+					}
+				case (o.kind == lkPacket || o.kind == lkPeer) && w.K.UDPQueued(o.rawFd) == 0:
+					for i, n := 0, w.Pick(1, 2, 3); i < n; i++ {
+						d.peerDatagram(o, 12)
+					}
+				}
+				continue
 			}
 			if (o.kind == lkFifoR || o.kind.stream()) && o.peerSent-o.inOff < 2000 {
 				d.peerSend(o, 6000)
